@@ -18,11 +18,12 @@ VARIABLES tid, l,
           executed, epsDone,
           updates,   \* number of events at which a trained component was seen changed
           prevEv,    \* name of the previous event
+          callStart, \* executed steps at the latest inner_call (multi-task schedulers)
           iters,     \* number of gradient iterations started so far (buffer sample events)
           seg,       \* open learning segment: [open, changed, stepIdx, iter]
           viol       \* set of <<position, clause>>
 
-vars == <<tid, l, phase, lastObs, queue, autoq, pend, executed, epsDone, updates, prevEv, iters, seg, viol>>
+vars == <<tid, l, phase, lastObs, queue, autoq, pend, executed, epsDone, updates, prevEv, callStart, iters, seg, viol>>
 
 T == Traces[tid]
 C == T.cfg
@@ -37,7 +38,7 @@ Init == /\ tid \in 1..Len(Traces) /\ l = 1
         /\ autoq = [e \in 0..(Traces[tid].cfg.nenvs - 1) |-> <<>>]
         /\ pend = [e \in 0..(Traces[tid].cfg.nenvs - 1) |-> [src |-> "none", act |-> "none"]]
         /\ executed = 0 /\ epsDone = 0 /\ updates = 0 /\ prevEv = "none" /\ viol = {}
-        /\ iters = 0 /\ seg = [open |-> FALSE, changed |-> {}, stepIdx |-> 0, iter |-> 0]
+        /\ callStart = 0 /\ iters = 0 /\ seg = [open |-> FALSE, changed |-> {}, stepIdx |-> 0, iter |-> 0]
 
 Fail(clauses) == viol' = viol \cup {<<l, c>> : c \in clauses}
 SetOf(s) == {s[i] : i \in 1..Len(s)}
@@ -94,6 +95,7 @@ Common ==
 Bump == /\ l' = l + 1 /\ prevEv' = E.ev /\ UNCHANGED tid
         /\ updates' = IF Changed \cap SetOf(C.trained) # {} THEN updates + 1 ELSE updates
         /\ iters' = IF E.ev = "sample" THEN iters + 1 ELSE iters
+        /\ callStart' = IF E.ev = "inner_call" THEN executed ELSE callStart
         /\ seg' = IF E.ev = Opener
                   THEN [open |-> TRUE, changed |-> {}, iter |-> IF Opener = "sample" THEN iters + 1 ELSE iters,
                         stepIdx |-> IF E.ev = "step" THEN LatestStepIndex + 1 ELSE LatestStepIndex]
@@ -108,7 +110,7 @@ EvReset ==
   (* a vector environment in NEXT_STEP mode answers the call after an episode end with
      (reset observation, reward 0, no flags): that is what it produced for that call *)
   /\ autoq' = IF C.autoreset /\ phase[E.env] = "ended"
-              THEN [autoq EXCEPT ![E.env] = Append(@, [obs |-> lastObs[E.env], act |-> "any", r |-> 0, next |-> E.obs, term |-> FALSE])]
+              THEN [autoq EXCEPT ![E.env] = Append(@, [obs |-> lastObs[E.env], act |-> "any", r |-> 0, next |-> E.obs, term |-> FALSE, trunc |-> FALSE])]
               ELSE autoq
   /\ Fail(Common)
   /\ UNCHANGED <<queue, executed, epsDone>>
@@ -134,7 +136,7 @@ EvPolicy ==
 EvStep ==
   /\ E.ev = "step"
   /\ LET e == E.env
-         rec == [obs |-> lastObs[e], act |-> E.act, r |-> E.r4, next |-> E.obs, term |-> E.term]
+         rec == [obs |-> lastObs[e], act |-> E.act, r |-> E.r4, next |-> E.obs, term |-> E.term, trunc |-> E.trunc]
          ended == E.term \/ E.trunc
      IN
      /\ queue' = [queue EXCEPT ![e] = Append(@, rec)]
@@ -172,7 +174,11 @@ EvAdd ==
                \cup (IF C.check_act /\ ~E.auto /\ ~CStoreAct(rec, p.act) THEN {"StoreAct"} ELSE {})
                \cup (IF ~CStoreReward(rec, p.r) THEN {"StoreReward"} ELSE {})
                \cup (IF C.check_next /\ E.chk_next /\ ~CStoreNext(rec, p.next) THEN {"StoreNext"} ELSE {})
-               \cup (IF C.check_term /\ E.chk_term /\ ~CStoreTerm(rec, p.term) THEN {"StoreTerm"} ELSE {}))
+               \cup (IF C.check_term /\ E.chk_term /\ ~CStoreTerm(rec, p.term) THEN {"StoreTerm"} ELSE {})
+               (* buffers that keep the truncation flag (subtrajectory buffers mask windows by it) *)
+               \cup (IF E.has_trunc /\ E.trunc # p.trunc THEN {"StoreTrunc"} ELSE {})
+               (* the learner is handed the routine's current estimate, not a stale copy *)
+               \cup (IF ~E.table_current THEN {"LearnerOnCurrentEstimate"} ELSE {}))
   /\ UNCHANGED <<phase, lastObs, pend, executed, epsDone>>
 
 EvRet ==
@@ -180,14 +186,27 @@ EvRet ==
   /\ Fail(Common \cup (IF C.ret_applicable /\ ~CReturnMatches(E.n, C.start, executed) THEN {"ReturnedCount"} ELSE {}))
   /\ UNCHANGED <<phase, lastObs, queue, autoq, pend, executed, epsDone>>
 
+(* multi-task schedulers: every chained call of the single-task learner is bracketed by inner_call /
+   inner_ret; the count fed in must be the steps really executed so far and the count reported back must
+   be that start plus the steps executed within the call *)
+EvInnerCall ==
+  /\ E.ev = "inner_call"
+  /\ Fail(Common \cup (IF E.start # C.start + executed THEN {"InnerCallStart"} ELSE {}))
+  /\ UNCHANGED <<phase, lastObs, queue, autoq, pend, executed, epsDone>>
+
+EvInnerRet ==
+  /\ E.ev = "inner_ret"
+  /\ Fail(Common \cup (IF E.n >= 0 /\ E.n # E.start + (executed - callStart) THEN {"InnerReturnedCount"} ELSE {}))
+  /\ UNCHANGED <<phase, lastObs, queue, autoq, pend, executed, epsDone>>
+
 (* events without protocol content (buffer sampling, logger calls ...): frame clauses only *)
 EvOther ==
-  /\ E.ev \notin {"reset", "explore", "policy", "step", "add", "ret"}
+  /\ E.ev \notin {"reset", "explore", "policy", "step", "add", "ret", "inner_call", "inner_ret"}
   /\ Fail(Common)
   /\ UNCHANGED <<phase, lastObs, queue, autoq, pend, executed, epsDone>>
 
 Next == /\ l <= Len(T.events)
-        /\ (EvReset \/ EvExplore \/ EvPolicy \/ EvStep \/ EvAdd \/ EvRet \/ EvOther)
+        /\ (EvReset \/ EvExplore \/ EvPolicy \/ EvStep \/ EvAdd \/ EvRet \/ EvInnerCall \/ EvInnerRet \/ EvOther)
         /\ Bump
 
 (* verdict lines: one per trace, printed when the trace is consumed *)
